@@ -187,6 +187,13 @@ MUTANTS = [
     m('C18', 'gradient_step_ascent', (LI, "            theta = theta - alpha*dL\n", "            theta = theta + alpha*dL\n")),
     m('C18', 'rg_project_unnormalised_average', (FG, "            if terminate: return ans * (self.total / ans.sum())", "            if terminate: return ans")),
     m('C18', 'local_total_floor_dropped', (LI, "                total = max(1, estimate)", "                total = estimate")),
+    # ---- C19 ------------------------------------------------------------
+    m('C19', 'revert_F13_log_centering', (PI, "        logQ -= logQ.max() # keeps the normalisation below accurate when the entries are huge\n", "")),
+    m('C19', 'acceptance_inverted', (PI, "        if loss - new_loss >= 0.5*alpha*dL.dot(P-Q):", "        if loss - new_loss <= 0.5*alpha*dL.dot(P-Q):")),
+    m('C19', 'logq_not_renormalised', (PI, "        logQ += np.log(total) - logsumexp(logQ)\n", "")),
+    m('C19', 'weights_not_exponentiated', (PI, "    return np.exp(logP)\n", "    return logP\n")),
+    m('C19', 'accepts_any_step_after_first_reject', (PI, "        if loss - new_loss >= 0.5*alpha*dL.dot(P-Q):", "        if begun or loss - new_loss >= 0.5*alpha*dL.dot(P-Q):")),
+    m('C19', 'public_rows_sorted', (PI, "        return Dataset(self.public_data.df, self.public_data.domain, self.weights)", "        return Dataset(self.public_data.df.sort_values(list(self.public_data.domain.attrs)).reset_index(drop=True), self.public_data.domain, self.weights)")),
 ]
 
 
